@@ -71,6 +71,15 @@ def _extract(job):
                 notes.append("magnetic functional not real after removing "
                              "s mu_0")
             Rmg[c][:, n] = np.real(v)
+    # what was computed on another grid before (same cell counts, other
+    # widths) must not matter
+    sib = emg3d.TensorMesh([a[::-1].copy() + 0.5 for a in hh], (0, 0, 0))
+    try:
+        mid = tuple(float(s_.sum()/2) for s_ in sib.h)
+        fields._point_vector_magnetic(sib, (*mid, 0., 0.), freq)
+        fields._point_vector(sib, (*mid, 0., 0.))
+    except Exception:  # noqa
+        pass
     out = []
     for ip, p2 in enumerate(pts2):
         for c in (1, 2, 3):
@@ -118,19 +127,24 @@ def _extract(job):
     ef = emg3d.Field(grid, frequency=freq)
     ef.field[:] = rng.standard_normal(L.ne) + (
         1j*rng.standard_normal(L.ne) if freq > 0 else 0.0)
-    for _ in range(6):
-        az, el = rng.uniform(-180, 180), rng.uniform(-90, 90)
+    near = [(0.004, 0.0), (89.998, 0.0), (0.0, 0.003), (30.0, 89.998),
+            (-0.003, -0.002), (179.997, 0.0), (90.0, 0.004)]
+    for it in range(6 + len(near)):
+        az, el = (rng.uniform(-180, 180), rng.uniform(-90, 90)) if it < 6 \
+            else near[it-6]
         ip = rng.integers(len(P))
         f = emg3d.electrodes.rotation(az, el)
-        want = sum(f[c-1]*(Rel[c][ip] @ ef.field) for c in (1, 2, 3))
+        terms = [f[c-1]*(Rel[c][ip] @ ef.field) for c in (1, 2, 3)]
+        want = sum(terms)
+        mag = sum(abs(t) for t in terms)     # rounding is relative to this
         got = fields.get_receiver(ef, (*P[ip], az, el), 'linear')
         if np.isnan(want) != np.isnan(got) or (
-                not np.isnan(got) and abs(got - want) > 1e-12*abs(want)):
+                not np.isnan(got) and abs(got - want) > 1e-12*mag):
             obs.append("oblique receiver is not the rotated combination")
         try:
             v = fields._point_vector(grid, (*P[ip], az, el)).field
             if not np.isnan(want) and abs(v @ ef.field - want) > \
-                    1e-12*abs(want):
+                    1e-12*mag:
                 obs.append("oblique point source is not the transpose")
         except ValueError:
             pass
